@@ -442,6 +442,14 @@ class C19(Check):
             for pos in range(lo, min(hi, len(base)) - 3, 4):
                 for val in (0xFFFFFFFF, 0x7FFFFFFF):
                     yield {'kind': kind, 'muts': [['set', pos, 4, val]]}
+        # flag-like fields: every 16-bit half-word of the TMD header (title id incl. its category word, versions, flags) and of the
+        # NCCH header set to each single-bit value - a decomposition loop that misses one bit never ends
+        for kind, lo, hi, bits in (('tmd', 0x140, 0x140 + 0xC4, range(16)), ('ncch', 0x100, 0x200, (0, 7, 8, 15)),
+                                   ('cci', 0x100, 0x200, (0, 7, 8, 15))):
+            base = bs[kind][0]
+            for pos in range(lo, min(hi, len(base)) - 1, 2):
+                for k in bits:
+                    yield {'kind': kind, 'muts': [['set', pos, 2, 1 << k]]}
         if tier != 'thorough':
             return
         for kind in ('romfs', 'exefs', 'seeddb', 'lzss', 'tmd', 'diff'):
